@@ -60,10 +60,21 @@ func specFields(s string) []string { // interp.splitBlanks: space, tab, newline
 	return strings.FieldsFunc(s, func(r rune) bool { return r == ' ' || r == '\t' || r == '\n' })
 }
 
+// fieldsOf: the fields of a record in the run's input mode
+func (s *specState) fieldsOf(l string) []string {
+	if sep := s.c.modeSep(); sep != 0 {
+		if l == "" {
+			return nil
+		}
+		return strings.Split(l, string(rune(sep)))
+	}
+	return specFields(l)
+}
+
 func (s *specState) file(name string) ([]string, bool) {
 	for _, f := range s.c.Files {
 		if f.Name == name {
-			return f.Recs, true
+			return s.c.recs(f.Recs), true
 		}
 	}
 	return nil, false
@@ -206,7 +217,7 @@ func (s *specState) nextRecord() (rec string, ok bool, bad bool) {
 	}
 }
 
-func (s *specState) setLine(l string) { s.line, s.flds = l, specFields(l) }
+func (s *specState) setLine(l string) { s.line, s.flds = l, s.fieldsOf(l) }
 
 func (s *specState) getline(src Src, tgt Tgt) {
 	var rec string
@@ -248,7 +259,7 @@ func (s *specState) getline(src Src, tgt Tgt) {
 		if !ok {
 			for _, c := range s.c.Cmds {
 				if c.Name == src.Name {
-					st = c.Recs
+					st = s.c.recs(c.Recs)
 				}
 			}
 		}
@@ -318,8 +329,16 @@ func (s *specState) emitTrace(tag int, names []string) {
 		}
 		vals = strings.Join(hs, ":")
 	}
-	s.res.Events = append(s.res.Events, fmt.Sprintf("T,%d,%d,%d,%s,%s,%d,%d,%s", tag, s.nr, s.fnr,
-		hx.HexS(s.fname), hx.HexS(s.line), len(s.flds), s.ret, vals))
+	fl := "-"
+	if len(s.flds) > 0 {
+		hs := make([]string, len(s.flds))
+		for i, f := range s.flds {
+			hs[i] = hx.HexS(f)
+		}
+		fl = strings.Join(hs, "/")
+	}
+	s.res.Events = append(s.res.Events, fmt.Sprintf("T,%d,%d,%d,%s,%s,%d,%d,%s,%s", tag, s.nr, s.fnr,
+		hx.HexS(s.fname), hx.HexS(s.line), len(s.flds), s.ret, vals, fl))
 }
 
 // block runs statements; a pattern function's "return (cond)" yields its value through retv.
@@ -432,7 +451,7 @@ func (s *specState) pattern(p Pattern) bool {
 
 func specRun(c *Case) (res specResult) {
 	s := &specState{c: c, argv: map[int]string{0: "goawk"}, argc: len(c.Args) + 1, opnd: 1,
-		stdin: c.Stdin, vars: map[string]string{}, streams: map[string][]string{}, res: &res}
+		stdin: c.recs(c.Stdin), vars: map[string]string{}, streams: map[string][]string{}, res: &res}
 	for i, a := range c.Args {
 		s.argv[i+1] = a
 	}
